@@ -21,8 +21,8 @@ CONFIG = {
     "quick": {"flavours": ["real", "complex"], "shards": 8, "examples": 800, "min_nontrivial": 100, "budget_s": 120},
     "thorough": {"flavours": ["real", "complex"], "shards": 16, "examples": 2500, "min_nontrivial": 2000, "budget_s": 3000},
 }
-REQUIRED_CLASSES = {"quick": ["n=0", "n!=0", "sub-1", "sub-2", "sub-3", "sub-4", "offdiag-operator", "zero-pole", "complex", "overflow-branch"],
-                    "thorough": ["n=0", "n!=0", "sub-1", "sub-2", "sub-3", "sub-4", "offdiag-operator", "zero-pole", "complex", "overflow-branch"]}
+REQUIRED_CLASSES = {"quick": ["n=0", "n!=0", "sub-1", "sub-2", "sub-3", "sub-4", "sub-5", "offdiag-operator", "zero-pole", "complex", "overflow-branch"],
+                    "thorough": ["n=0", "n!=0", "sub-1", "sub-2", "sub-3", "sub-4", "sub-5", "offdiag-operator", "zero-pole", "complex", "overflow-branch"]}
 TAUF = [0.0, 1e-9, 0.1, 0.25, 0.5, 0.8, 1.0 - 1e-9, 1.0]
 
 
@@ -36,7 +36,7 @@ def strategy_(draw, tier):
                      st.tuples(ix, ix, ix, ix))
     comps = draw(st.lists(quad, min_size=1, max_size=3, unique=True))
     ns = draw(st.lists(st.sampled_from([0, 0, 1, -1, 2, -2, 17, -17, 1000]), min_size=1, max_size=4, unique=True))
-    sub = draw(st.sampled_from([0, 1, 2, 3, 4]))
+    sub = draw(st.sampled_from([0, 1, 2, 3, 4, 5]))
     ab = draw(st.tuples(gen.amp(), gen.amp(), gen.amp(), gen.amp()))
     return {"model": mdl, "comps": [list(c) for c in comps], "n": ns, "sub": sub, "ab": list(ab)}
 
@@ -53,7 +53,7 @@ def execute(case, ctx):
     sel = "n %d %s tau %d %s z %d %s" % (len(ns), " ".join(map(str, ns)), len(taus), " ".join(repr(t) for t in taus),
                                         len(zs), " ".join("%r %r" % (z.real, z.imag) for z in zs))
     aa = complex(case["ab"][0], case["ab"][1]); bb = complex(case["ab"][2], case["ab"][3])
-    subs = {0: "", 1: "sub 1", 2: "sub 2 %r %r %r %r" % (aa.real, aa.imag, bb.real, bb.imag), 3: "sub 3", 4: "sub 4"}[sub]
+    subs = {0: "", 1: "sub 1", 2: "sub 2 %r %r %r %r" % (aa.real, aa.imag, bb.real, bb.imag), 3: "sub 3", 4: "sub 4", 5: "sub 5"}[sub]
     q = []
     for k, (a, b, c, d) in enumerate(case["comps"]):
         q.append((("u", k), "susc %d %d %d %d %s" % (a, b, c, d, sel)))
